@@ -22,8 +22,12 @@ Four parts (see run()):
 Tiers of (a): quick = all histories of length <= 2, a STRATIFIED sample of length 3 (every ordered triple of
 the 7 operation kinds, every operation in every position), 60 random histories of length 4-8; thorough =
 EXHAUSTIVE for length <= 3 (32 + 32^2 + 32^3 histories, each on all 26 pool kinds; the 32 continuations of a
-prefix share its evaluation, `run_tree`) and 1500 long ones.  Caller-owned Algorithm objects (CG(x0=...),
-Lanczos(start_vector=...)) are reused across calls and snapshotted like arrays.
+prefix share its evaluation, `run_tree`) and 1500 long ones.  Caller-owned Algorithm objects (CG(x0=..., P=...),
+GMRES(x0=...), Lanczos(start_vector=...), Arnoldi(start_vector=...), Auto(...)) are reused across calls and compared by value and
+identity after every operation; nothing the caller created is excluded from the comparison (see OWNERSHIP below).  Round 3: an
+exception is an observation — `predict` names the class a call must end in (or success), the generator hands every routine an
+operand it is defined on, and the per-operation success rates are part of the evidence (>= 90 % required outside
+EXPECTED_RAISING).
 
 A changed /repo never makes the check crash: a scanner / gate / driver failure is reported as
 `VIOLATION ... no-failing-input-found` naming the theorems that no longer check, unless the byte comparison
@@ -123,7 +127,7 @@ def make_arrays(variant=0):
         a[f"idx{n}"] = np.array([(3 * k + 1) % n for k in range(n)], dtype=np.int64)  # a permutation (3 coprime to n)
         a[f"jdx{n}"] = np.array([(3 * k + 1) % n for k in range(n)], dtype=np.int64)
     # constructor arrays of the pool (n = 4)
-    a["L4"] = np.tril(_spd(4, 1)) + np.eye(4)
+    a["L4"] = np.tril(_spd(4, 1)) + np.diag([1.0, 2.0, 3.0, 4.0])   # distinct diagonal 5, 7, 6, 8: eig(Triangular) needs simple eigenvalues
     a["M2"] = np.array([[2.0, 0.5], [0.5, 3.0]]) + 0.1 * v * np.eye(2)
     a["N2"] = np.array([[4.0, 1.0], [1.0, 2.0]])
     a["R24"] = np.array([[1.0, 2.0, 0.0, 1.0], [0.5, 1.0, 3.0, 0.0]])
@@ -165,12 +169,13 @@ class EnvBase:
         self.pool = build_pool(a)
         self.arr.touched = set()
         self.snap_arr = {k: snap_array(x) for k, x in a.items()}
-        self.snap_ops = {k: snap_op(o) for k, o in self.pool.items()}
+        self.snap_ops = {k: snap_op(o, skip=False) for k, o in self.pool.items()}
         self.partners = {}
         self.algs, self.snap_algs, self.used_algs = {}, {}, set()
         self.used = set()
         self.produced = []
         self.dirty = False
+        self.surprises = []         # outcomes `predict` did not name (evidence + reported)
 
     # partners for binary algebra, by size (built lazily; they wrap caller-owned arrays)
     def partner(self, what, n):
@@ -183,30 +188,39 @@ class EnvBase:
             else:
                 op = Dense(self.arr["M2"])
             self.partners[key] = op
-            self.snap_ops[key] = snap_op(op)
+            self.snap_ops[key] = snap_op(op, skip=False)
         self.used.add(key)
         if self.arr.touched is not None:     # the partner wraps a caller-owned array (recorded on every use, not only on creation)
             self.arr.touched.add({"dense": f"M{n}", "diag": f"d{n}"}.get(what, "M2"))
         return self.partners[key]
 
-    # Algorithm objects the CALLER owns and passes to several calls (round 2): their attributes (incl. the arrays x0 /
-    # start_vector they carry) are part of what no cola operation may modify
+    # Algorithm objects the CALLER owns and passes to several calls: their fields (the arrays x0 / start_vector, the
+    # preconditioner operator P, tolerances) are inputs no cola operation may modify; compared by value and identity (alg_snap)
     def alg(self, what, n):
         key = ("alg", what, n)
         if key not in self.algs:
             if what == "cg":
-                a = cola.CG(x0=self.arr[f"x0{n}"][:, None], max_iters=6, tol=1e-9)     # (n, 1) view of the caller's array:
-            elif what == "gmres":                                                         # the operator is applied to a matrix
+                # (n, 1) view of the caller's array (the operator is applied to a matrix); P: a caller-owned preconditioner
+                a = cola.CG(x0=self.arr[f"x0{n}"][:, None], P=self.partner("diag", n), max_iters=6, tol=1e-9)
+            elif what == "cg_nox0":                                                       # for kinds whose inv rule hands `alg` to
+                a = cola.CG(max_iters=6, tol=1e-9)                                        # members of a different size
+            elif what == "gmres":
                 a = cola.GMRES(x0=self.arr[f"x0{n}"][:, None], max_iters=4, tol=1e-9)
+            elif what == "gmres_nox0":
+                a = cola.GMRES(max_iters=4, tol=1e-9)
             elif what == "arnoldi":
                 a = cola.Arnoldi(start_vector=self.arr[f"v{n}"], max_iters=3)
             elif what == "lanczos_sv":
                 a = cola.Lanczos(start_vector=self.arr[f"v{n}"], max_iters=3)
+            elif what == "auto":
+                a = cola.Auto(max_iters=5, tol=1e-8)                                      # apply_unary reads alg.__dict__ of an Auto
             else:
                 a = cola.Lanczos(max_iters=3)
             self.algs[key] = a
-            self.snap_algs[key] = struct_snap(a)
+            self.snap_algs[key] = alg_snap(a)
         self.used_algs.add(key)
+        if what == "cg":
+            self.used.add(("diag", n))              # the preconditioner the Algorithm object carries is involved
         if self.arr.touched is not None and what in ("cg", "gmres"):
             self.arr.touched.add(f"x0{n}")
         if self.arr.touched is not None and what in ("arnoldi", "lanczos_sv"):
@@ -274,36 +288,54 @@ def ann_names(A):
     return tuple(sorted(getattr(a, "__name__", str(a)) for a in A.annotations))
 
 
-# Attributes that are NOT part of the value of an operator (documented exclusions, the same ones the
-# Lean allow-list of in-place sites spells out): `info` is the log of the last iterative run
-# (IterativeOperatorWInfo._matmat stores it, LanczosUnary/ArnoldiUnary update it; it carries wall-clock
-# timings), and the `start_vector` entry of the constructor-built `kwargs` dict of LanczosUnary /
-# ArnoldiUnary, which `_matmat` pops before use (the entry is never read).
-SKIP_ATTRS = {"info"}
-SKIP_KWARGS = {"start_vector"}
+# OWNERSHIP (round 3).  The property says that no cola operation modifies an INPUT.
+#  * caller-owned = every object the caller created and handed to cola, transitively: the arrays of `env.arr` (right-hand sides,
+#    x0, start vectors, index arrays, constructor arrays), the pool operators and partners the caller constructed (with EVERY
+#    attribute, nothing skipped), the Algorithm objects the caller constructed (`env.algs`: every field by value AND by object
+#    identity — x0, start_vector, the preconditioner operator P, tolerances — and the same for Auto(...) namespaces).  All of them
+#    are compared after every operation without any exclusion.
+#  * library-owned = objects cola itself allocated and stores inside an operator IT returned: the `info` dict of
+#    IterativeOperatorWInfo / LanczosUnary / ArnoldiUnary (log of the last run: `self.info = {}` in __init__, replaced / updated by
+#    `_matmat`; carries wall-clock timings) and the `kwargs` dict of LanczosUnary / ArnoldiUnary (`LanczosUnary(A, f, **alg.__dict__)`
+#    binds `**kwargs` to a FRESH dict — checked by `lib_state_is_fresh` whenever such an operator is returned — from which
+#    `_matmat` pops the never-read entry `start_vector`).  Only these two fields of these three classes are excluded from the
+#    snapshot of an operator cola returned (`LIB_STATE`), and only there: the exclusion never applies to a pool operator, a
+#    partner or an Algorithm object.  The OBJECTS stored in a library-owned container that came from the caller (the
+#    start_vector array, the values of alg.__dict__) stay caller-owned and are compared through `env.arr` / `env.algs`.
+#    Every time the exclusion actually hides a difference it is counted (`library_owned_state_changes` in the evidence).
+LIB_STATE = {"IterativeOperatorWInfo": {"info": None},
+             "LanczosUnary": {"info": None, "kwargs": {"start_vector"}},
+             "ArnoldiUnary": {"info": None, "kwargs": {"start_vector"}}}
+
+
+def _base_name(v):
+    return type(v).__name__.split("[")[0]
 
 
 from cola.linalg.algorithm_base import Algorithm as _ALGORITHM  # noqa: E402
 
 
-def struct_snap(v, depth=0):
+def struct_snap(v, depth=0, skip=True):
     """structural (deep) snapshot of a value held by the caller: every attribute of an operator,
-    recursively; arrays by bytes"""
+    recursively; arrays by bytes.  `skip`: apply the LIB_STATE exclusion (operators cola returned); with
+    skip=False (caller-constructed roots: pool, partners, Algorithm objects) nothing is excluded."""
     if isinstance(v, np.ndarray):
         return ("a",) + snap_array(v)
     if isinstance(v, LinearOperator):
         items = []
+        lib = LIB_STATE.get(_base_name(v), {}) if skip else {}
         for k, x in sorted(vars(v).items()):
-            if k in SKIP_ATTRS:
-                continue
-            if k == "kwargs" and isinstance(x, dict):
-                x = {kk: vv for kk, vv in x.items() if kk not in SKIP_KWARGS}
-            items.append((k, struct_snap(x, depth + 1)))
+            if k in lib:
+                if lib[k] is None:
+                    continue
+                if isinstance(x, dict):
+                    x = {kk: vv for kk, vv in x.items() if kk not in lib[k]}
+            items.append((k, struct_snap(x, depth + 1, skip)))
         return ("o", type(v).__name__, tuple(items))
     if isinstance(v, (tuple, list)):
-        return (type(v).__name__,) + tuple(struct_snap(x, depth + 1) for x in v)
+        return (type(v).__name__,) + tuple(struct_snap(x, depth + 1, skip) for x in v)
     if isinstance(v, dict):
-        return ("d",) + tuple((repr(k), struct_snap(x, depth + 1)) for k, x in sorted(v.items(), key=lambda kv: repr(kv[0])))
+        return ("d",) + tuple((repr(k), struct_snap(x, depth + 1, skip)) for k, x in sorted(v.items(), key=lambda kv: repr(kv[0])))
     if isinstance(v, (set, frozenset)):
         return ("s",) + tuple(sorted(getattr(x, "__name__", repr(x)) for x in v))
     if v is None or isinstance(v, (bool, int, float, complex, str, slice, np.generic, np.dtype)):
@@ -312,12 +344,31 @@ def struct_snap(v, depth=0):
         c = v.tocoo()
         return ("sp", v.shape, snap_array(np.asarray(c.data)), snap_array(np.asarray(c.row)), snap_array(np.asarray(c.col)))
     if isinstance(v, _ALGORITHM) and depth < 6:
-        # Algorithm objects are callable (alg(A, b)); their attributes (x0, start_vector, tolerances) are caller-owned data
-        return ("obj", type(v).__name__, struct_snap(vars(v), depth + 1))
+        # Algorithm objects are callable (alg(A, b)); their attributes (x0, start_vector, P, tolerances) are caller-owned data
+        return ("obj", type(v).__name__, struct_snap(vars(v), depth + 1, skip))
     if hasattr(v, "__dict__") and not callable(v) and depth < 6 and not isinstance(v, type) \
             and type(v).__module__.startswith("cola"):
-        return ("obj", type(v).__name__, struct_snap(vars(v), depth + 1))  # Algorithm dataclasses (CG(x0=...), ...)
+        return ("obj", type(v).__name__, struct_snap(vars(v), depth + 1, skip))  # Algorithm dataclasses (CG(x0=...), ...)
     return ("id", type(v).__name__, getattr(v, "__qualname__", None) or getattr(v, "__name__", None) or "")
+
+
+def alg_snap(a):
+    """an Algorithm object the caller owns: every field by value (deep, nothing excluded) and by object identity"""
+    return (struct_snap(a, skip=False), tuple((k, id(x)) for k, x in sorted(vars(a).items())))
+
+
+def lib_state_is_fresh(op, env):
+    """the containers excluded by LIB_STATE are objects cola allocated: none of them IS (by identity) an object the caller owns
+    (the __dict__ of an Algorithm object, a dict / list stored in one, a caller array).  -> list of offending fields"""
+    lib = LIB_STATE.get(_base_name(op))
+    if not lib:
+        return []
+    mine = set()
+    for a in env.algs.values():
+        mine.add(id(vars(a)))
+        mine.update(id(x) for x in vars(a).values() if isinstance(x, (dict, list, set)))
+    mine.update(id(x) for x in dict.values(env.arr))
+    return [k for k in lib if k in vars(op) and id(vars(op)[k]) in mine]
 
 
 def dense_snap(A):
@@ -333,10 +384,10 @@ def head_snap(A):
     return (type(A).__name__, tuple(A.shape), str(A.dtype), ann_names(A), repr(A.device))
 
 
-def snap_op(A):
+def snap_op(A, skip=True):
     """what the caller can observe of an operator: class, shape, dtype, annotations, device, every
-    attribute (deep), and the represented matrix"""
-    return (head_snap(A), struct_snap(A), dense_snap(A))
+    attribute (deep), and the represented matrix.  skip=False for operators the caller constructed (nothing excluded)"""
+    return (head_snap(A), struct_snap(A, skip=skip), dense_snap(A))
 
 
 def fingerprint(res):
@@ -369,9 +420,113 @@ def _vec(env, A, last, name):
 
 def _rhs(env, A, last):
     """right-hand side: the previous array result when it fits (aliasing chains), else b"""
-    if isinstance(last, np.ndarray) and last.shape == (A.shape[0],) and last.dtype.kind in "fc":
+    if isinstance(last, np.ndarray) and last.shape == (A.shape[0],) and last.dtype.kind in "fc" \
+            and np.all(np.isfinite(last)) and np.any(last):      # (a zero / non-finite right-hand side: recorded C13 zeroResidual)
         return last
     return env.arr[f"b{A.shape[0]}"]
+
+
+# ---- operands on which an operation is DEFINED (round 3: the generator no longer hands Lanczos / CG operators that cola
+# refuses by assertion; an exception is an observation, see `predict`) -----------------------------------------------------
+from cola.annotations import PSD as _PSD, SelfAdjoint as _SELFADJ  # noqa: E402
+
+# kinds whose inv / apply_unary rule hands the SAME Algorithm object to members (of another size, and not annotated)
+DISTRIBUTING = {"Kronecker", "BlockDiag", "KronSum", "Product", "Transpose", "Adjoint"}
+
+
+def _dense_of(A):
+    with warnings.catch_warnings(), np.errstate(all="ignore"):
+        warnings.simplefilter("ignore")
+        return np.asarray(A.to_dense())
+
+
+def well_posed(A, V=None, m=0):
+    """Decided on the represented matrix before the call: finite, numerically non-singular (sigma_min > 1e-8 sigma_max) and, for a
+    Krylov routine with start block V and m iterations, every column's Krylov space K_j(A, v) keeps growing for min(m + 1, n)
+    steps (no exhaustion inside the iteration budget: exhaustion is where the recorded breakdown defects C14
+    batch-member-breakdown / C06 gmres-krylov-breakdown / C09 krylov-batch-unequal-exhaustion live)."""
+    try:
+        D = _dense_of(A)
+        if D.ndim != 2 or D.shape[0] != D.shape[1] or not np.all(np.isfinite(D)):
+            return False
+        sv = np.linalg.svd(D, compute_uv=False)
+        if not (sv[-1] > 1e-8 * sv[0]):
+            return False
+        if V is not None:
+            V = np.asarray(V)
+            V = V[:, None] if V.ndim == 1 else V
+            k = min(m + 1, D.shape[0])
+            for j in range(V.shape[1]):
+                cols, v = [], V[:, j].astype(D.dtype if D.dtype.kind == "c" else np.result_type(D.dtype, V.dtype))
+                for _ in range(k):
+                    nv = np.linalg.norm(v)
+                    if not (nv > 0 and np.isfinite(nv)):
+                        return False
+                    v = v / nv
+                    cols.append(v)
+                    v = D @ v
+                ks = np.linalg.svd(np.stack(cols, axis=1), compute_uv=False)
+                if not (ks[-1] > 1e-6 * ks[0]):
+                    return False
+        return True
+    except Exception:  # noqa: BLE001
+        return False
+
+
+def hpd_operand(env, A, V=None, m=0):
+    """A truthfully annotated Hermitian positive definite operator built FROM A for the routines cola only accepts on
+    SelfAdjoint / PSD operators (Lanczos, CG).  A itself when it already carries the annotation PSD, its rule does not
+    distribute the algorithm to un-annotated members and the problem is well posed; else PSD(Aᴴ A + M) with the caller-owned
+    dense symmetric positive definite partner M — a Sum (no structural rule, so the iterative algorithm really runs) that is positive definite
+    whatever A is, and whose every product goes through A's own _matmat and _rmatmat / transpose."""
+    if A.isa(_PSD) and _base_name(A) not in DISTRIBUTING and well_posed(A, V, m):
+        return A
+    return cola.PSD(A.H @ A + env.partner("dense", _n(A)))
+
+
+def regular_operand(env, A, V=None, m=0):
+    """A itself when solving with it is well posed (see `well_posed`), else the regularised Aᴴ A + M built from A (M the dense
+    symmetric positive definite partner: unit vectors are not eigenvectors of it, unlike for a diagonal shift)"""
+    if well_posed(A, V, m):
+        return A
+    return A.H @ A + env.partner("dense", _n(A))
+
+
+def x0_unfit(A):
+    """inv(A, alg) hands `alg` (and with it an x0 of size n) to members of another size: Kronecker / BlockDiag, also below a
+    Product / Transpose / Adjoint whose inv rule passes `alg` on"""
+    b = _base_name(A)
+    if b in ("Kronecker", "BlockDiag"):
+        return True
+    if b == "Product":
+        return any(x0_unfit(M) for M in A.Ms)
+    if b in ("Transpose", "Adjoint"):
+        return x0_unfit(A.A)
+    return False
+
+
+def contains_kind(A, names, depth=0):
+    if _base_name(A) in names:
+        return True
+    if depth > 8:
+        return False
+    for x in vars(A).values():
+        for y in (x if isinstance(x, (tuple, list)) else [x]):
+            if isinstance(y, LinearOperator) and contains_kind(y, names, depth + 1):
+                return True
+    return False
+
+
+def hermitian_pd(A):
+    """is the represented matrix exactly Hermitian and positive definite? (so that cola.PSD(A) is a TRUE declaration)"""
+    try:
+        D = _dense_of(A)
+        if D.ndim != 2 or D.shape[0] != D.shape[1] or not np.all(np.isfinite(D)) or not np.array_equal(D, D.conj().T):
+            return False
+        w = np.linalg.eigvalsh(D)
+        return bool(w[0] > 1e-8 * max(1.0, abs(w[-1])))
+    except Exception:  # noqa: BLE001
+        return False
 
 
 OPS = {}
@@ -455,7 +610,9 @@ def _(env, A, last):
 
 @op("PSD")
 def _(env, A, last):
-    return cola.PSD(A)
+    # the declaration must be TRUE (a false PSD sends solve / logdet into a Cholesky that raises): A when its matrix is Hermitian
+    # positive definite, else the positive definite Aᴴ A + M built from A
+    return cola.PSD(A) if hermitian_pd(A) else cola.PSD(A.H @ A + env.partner("dense", _n(A)))
 
 
 @op("to_dense")
@@ -483,7 +640,10 @@ def _(env, A, last):
 
 @op("to_dtype")
 def _(env, A, last):
-    return A.to(None, np.float32)      # "dtype change is not supported yet": only the inputs matter here
+    # "WARNING: dtype change is not supported yet" (it casts integer index arrays as well): only the inputs matter here, the
+    # result is not kept as the next operand
+    A.to(None, np.float32)
+    return None
 
 
 @op("getitem_ij")
@@ -518,6 +678,10 @@ def _(env, A, last):
 
 @op("diag1")
 def _(env, A, last):
+    # the structural rules of Kronecker / KronSum / BlockDiag refuse k != 0 by assertion at their first line ("Need to verify
+    # correctness of rule for off diagonal case"): there the documented way round dispatch, the generic rule on A's own _matmat
+    if contains_kind(A, ("Kronecker", "KronSum", "BlockDiag")):
+        return cola.diag(cola.no_dispatch(A), k=1)
     return cola.diag(A, k=1)
 
 
@@ -528,7 +692,7 @@ def _(env, A, last):
 
 @op("solve")
 def _(env, A, last):
-    return cola.solve(A, _rhs(env, A, last))
+    return cola.solve(regular_operand(env, A), _rhs(env, A, last))
 
 
 @op("inv")
@@ -538,14 +702,19 @@ def _(env, A, last):
 
 @op("inv_cg")
 def _(env, A, last):
-    Ai = cola.inv(A, env.alg("cg", _n(A)))
-    return Ai @ _rhs(env, A, last)
+    rhs = _rhs(env, A, last)
+    Ai = cola.inv(hpd_operand(env, A, rhs, 0), env.alg("cg", _n(A)))
+    return Ai @ rhs
 
 
 @op("inv_gmres")
 def _(env, A, last):
-    Ai = cola.inv(A, env.alg("gmres", _n(A)))
-    return Ai @ _rhs(env, A, last)
+    # an x0 of size n cannot be handed to the members of a Kronecker / BlockDiag (their inv rules pass `alg` on): there the
+    # caller's Algorithm object without x0
+    rhs = _rhs(env, A, last)
+    R = regular_operand(env, A, rhs, 4)
+    Ai = cola.inv(R, env.alg("gmres_nox0" if x0_unfit(R) else "gmres", _n(A)))
+    return Ai @ rhs
 
 
 @op("cg")
@@ -563,7 +732,8 @@ def _(env, A, last):
 
 @op("gmres")
 def _(env, A, last):
-    x, _info = real_gmres(A, _rhs(env, A, last), x0=env.arr[f"x0{_n(A)}"], max_iters=3, tol=1e-10)
+    rhs = _rhs(env, A, last)
+    x, _info = real_gmres(regular_operand(env, A, rhs, 3), rhs, x0=env.arr[f"x0{_n(A)}"], max_iters=3, tol=1e-10)
     return x
 
 
@@ -604,12 +774,43 @@ def _(env, A, last):
 
 @op("exp_lanczos")
 def _(env, A, last):
-    return cola.exp(A, env.alg("lanczos_sv", _n(A))) @ env.arr[f"b{_n(A)}"]
+    b = env.arr[f"b{_n(A)}"]
+    return cola.exp(hpd_operand(env, A, b, 3), env.alg("lanczos_sv", _n(A))) @ b
 
 
 @op("sqrt_lanczos")
 def _(env, A, last):
-    return cola.sqrt(A, env.alg("lanczos", _n(A))) @ env.arr[f"B{_n(A)}"]
+    B = env.arr[f"B{_n(A)}"]
+    return cola.sqrt(hpd_operand(env, A, B, 3), env.alg("lanczos", _n(A))) @ B
+
+
+def _b_and_units(env, A):
+    n = _n(A)
+    return np.concatenate([env.arr[f"b{n}"][:, None], np.eye(n)], axis=1)
+
+
+@op("lanczos_fn")
+def _(env, A, last):
+    # the LanczosUnary operator itself (returned to the caller; later products pop its kwargs / update its info: LIB_STATE)
+    return cola.exp(hpd_operand(env, A, _b_and_units(env, A), 3), env.alg("lanczos_sv", _n(A)))
+
+
+@op("arnoldi_fn")
+def _(env, A, last):
+    # always the Hermitian positive definite Aᴴ A + M: ArnoldiUnary diagonalises the projected H and solves with its eigenvector
+    # matrix, which is singular for a defective H (unit start vectors under a Permutation give a nilpotent shift)
+    return cola.exp(A.H @ A + env.partner("dense", _n(A)), env.alg("arnoldi", _n(A)))
+
+
+@op("inv_cg_op")
+def _(env, A, last):
+    return cola.inv(hpd_operand(env, A, _b_and_units(env, A), 0), env.alg("cg", _n(A)))
+
+
+@op("exp_auto")
+def _(env, A, last):
+    # a caller-owned Auto(...) namespace: apply_unary / inv read alg.__dict__
+    return cola.exp(A, env.alg("auto", _n(A))) @ env.arr[f"b{_n(A)}"]
 
 
 @op("exp")
@@ -671,15 +872,61 @@ def _struct_diff(a, b, path=""):
     return f"{path}: {str(a)[:80]} -> {str(b)[:80]}"
 
 
+def _lib_ops(v, out=None, depth=0):
+    """operators of the three LIB_STATE classes inside a value cola returned"""
+    out = [] if out is None else out
+    if isinstance(v, LinearOperator) and depth < 8:
+        if _base_name(v) in LIB_STATE:
+            out.append(v)
+        for x in vars(v).values():
+            _lib_ops(x, out, depth + 1)
+    elif isinstance(v, (tuple, list)):
+        for x in v:
+            _lib_ops(x, out, depth + 1)
+    elif isinstance(v, dict):
+        for x in v.values():
+            _lib_ops(x, out, depth + 1)
+    return out
+
+
+def _lib_fields(op):
+    """{(position, "<Class>.<field>[<entry>]"): snapshot} of everything LIB_STATE excludes inside `op`"""
+    out = {}
+    for i, o in enumerate(_lib_ops(op)):
+        b = _base_name(o)
+        for fld, sub in LIB_STATE[b].items():
+            x = vars(o).get(fld)
+            if sub is None:
+                out[(i, f"{b}.{fld}")] = struct_snap(x, skip=False) if not isinstance(x, dict) else ("keys",) + tuple(sorted(map(str, x)))
+            elif isinstance(x, dict):
+                for e in sub:
+                    out[(i, f"{b}.{fld}[{e!r}]")] = ("present",) if e in x else ("absent",)
+    return out
+
+
+def _has_lib_state(op):
+    return bool(_lib_ops(op))
+
+
 class Env(EnvBase):
     """EnvBase + the bookkeeping of one history: which operator values the caller holds"""
 
+    lib_changes = None
+
     def reset(self):
-        self.produced = []          # [(label, operator, snapshot)] operator values returned by earlier steps
+        self.produced = []          # [(label, operator, snapshot, full snapshot | None)] operator values returned by earlier steps
         self.dirty = False
+        if self.lib_changes is None:
+            self.lib_changes = {}       # "<Class>.<field>" -> how often the LIB_STATE exclusion hid a change (evidence)
 
     def hold(self, label, op):
-        self.produced.append((label, op, snap_op(op)))
+        has_lib = _has_lib_state(op)
+        # the exclusion is applied only while the excluded containers are objects cola allocated; if one of them IS a caller-owned
+        # object (e.g. the __dict__ of the caller's Algorithm), nothing is excluded for this operator
+        skip = has_lib and not any(lib_state_is_fresh(o, self) for o in _lib_ops(op))
+        if has_lib and not skip:
+            self.lib_changes["shared-with-caller"] = self.lib_changes.get("shared-with-caller", 0) + 1
+        self.produced.append((label, op, snap_op(op, skip=skip), _lib_fields(op) if skip else None, skip))
 
     def check(self, step, involved, full=False):
         """-> differences between the caller's values and their snapshots.  After every operation:
@@ -697,35 +944,91 @@ class Env(EnvBase):
             if not (full or k in involved):
                 continue
             s0 = self.snap_ops[k]
-            s1 = snap_op(o)
+            s1 = snap_op(o, skip=False)            # caller-constructed: nothing excluded
             if s1 != s0:
                 diffs.append({"what": "pool operator changed", "operator": str(k), "step": step, "field": _explain(s0, s1),
                               "class": type(o).__name__, "only_device": _only_device(s0, s1)})
         for k, a in self.algs.items():
-            if struct_snap(a) != self.snap_algs[k]:
+            s1 = alg_snap(a)
+            if s1 != self.snap_algs[k]:
+                s0 = self.snap_algs[k]
                 diffs.append({"what": "caller-owned Algorithm object changed", "operator": str(k), "step": step,
-                              "field": _struct_diff(self.snap_algs[k], struct_snap(a))})
-        for label, o, s0 in self.produced:
-            s1 = snap_op(o)
+                              "field": _struct_diff(s0[0], s1[0]) or
+                              "a field was rebound to another object: " + str([a_[0] for a_, b_ in zip(s0[1], s1[1]) if a_ != b_] or "field set changed")})
+        for i, (label, o, s0, full0, skip) in enumerate(self.produced):
+            s1 = snap_op(o, skip=skip)
             if s1 != s0:
                 diffs.append({"what": "an operator changed after it was returned to the caller", "operator": label,
                               "step": step, "field": _explain(s0, s1), "class": type(o).__name__, "only_device": _only_device(s0, s1)})
+            elif full0 is not None:
+                # the exclusion of library-owned state (LIB_STATE) is measured, never silent
+                full1 = _lib_fields(o)
+                if full1 != full0:
+                    for key in sorted(set(full0) | set(full1)):
+                        if full0.get(key) != full1.get(key):
+                            self.lib_changes[key[1]] = self.lib_changes.get(key[1], 0) + 1
+                    self.produced[i] = (label, o, s0, full1, skip)
         if diffs:
             self.dirty = True
         return diffs
 
 
+# Operations that raise BY DESIGN of cola on (most of) the pool; they stay in the stream for the exception path (an operation that
+# raises half-way must not have modified its inputs either) and the class of the exception is compared with `predict`.
+EXPECTED_RAISING = {
+    "to_dev": "xnp.move_to refuses a device argument on the NumPy backend: every operator with an array leaf raises RuntimeError",
+    "gmres_tri": "run_householder_arnoldi permutes a 2-D array with 3 axes: use_householder=True raises ValueError on every input",
+    "arnoldi_hh": "run_householder_arnoldi permutes a 2-D array with 3 axes: use_householder=True raises ValueError on every input",
+}
+
+
+def predict(name, A):
+    """The exception class the call is EXPECTED to end in on operand A (decided from the operand before the call), or None when
+    it must succeed.  Everything else that is raised is an unpredicted outcome and reported."""
+    base = _base_name(A)
+    if name in ("gmres_tri", "arnoldi_hh"):
+        return "ValueError"
+    if name == "to_dev":
+        if base == "Identity":
+            return None                      # Identity.to builds a new Identity
+        with warnings.catch_warnings():
+            warnings.simplefilter("ignore")
+            return "RuntimeError" if any(isinstance(x, np.ndarray) for x in A.flatten()[0]) else None
+    if name == "to_dtype" and base == "Identity":
+        return "TypeError"                   # Identity.to(device) has no dtype parameter (LinearOperator.to(device, dtype) has)
+    return None
+
+
 def apply_op(env, name, A, last):
-    """-> (status, result).  status 'ok' | 'na' (the call raised: not applicable to this operand)"""
+    """-> (status, result).  status 'ok' | 'skip' (the GENERATOR does not apply the operation here: size limit) | 'raise' (the call
+    ended in the exception class `predict` names; result = class name) | 'unpredicted' (any other exception; result = class
+    name).  A predicted exception that does not happen is recorded in env.surprises and the result used as 'ok'."""
     with warnings.catch_warnings():
         warnings.simplefilter("ignore")
         with np.errstate(all="ignore"):
             try:
-                return "ok", OPS[name](env, A, last)
+                pred = predict(name, A)
+            except Exception as ex:  # noqa: BLE001
+                pred = f"predict failed: {type(ex).__name__}"
+            try:
+                res = OPS[name](env, A, last)
             except NotApplicable:
-                return "na", "NotApplicable"
-            except Exception as ex:
-                return "na", type(ex).__name__
+                return "skip", "NotApplicable"
+            except Exception as ex:  # noqa: BLE001
+                got = type(ex).__name__
+                if got == pred:
+                    return "raise", got
+                env.surprises.append({"op": name, "operand_class": type(A).__name__, "annotations": list(ann_names(A)),
+                                      "predicted": pred or "success", "raised": got, "message": str(ex)[:200]})
+                return "unpredicted", got
+            if pred is not None:
+                env.surprises.append({"op": name, "operand_class": type(A).__name__, "annotations": list(ann_names(A)),
+                                      "predicted": pred, "raised": "nothing (the call succeeded)"})
+            return "ok", res
+
+
+def _stat(st, res):
+    return st if st in ("ok", "skip") else f"{st}:{res}"
 
 
 def run_history(history, kind, env, full_end=False):
@@ -747,7 +1050,7 @@ def run_history(history, kind, env, full_end=False):
         involved |= env.used
         if st == "ok" and (env.arr.touched or (isinstance(last, np.ndarray) and name in USES_LAST)):
             touched = True
-        statuses.append(st if st == "ok" else f"na:{res}")
+        statuses.append(_stat(st, res))
         if step == 0:
             first = (st, fingerprint(res) if st == "ok" else res)
         if st == "ok":
@@ -755,7 +1058,8 @@ def run_history(history, kind, env, full_end=False):
                 if isinstance(r, LinearOperator):   # a value the caller now holds
                     env.hold(f"step{step}:{name}", r)
             r0 = res[0] if isinstance(res, (tuple, list)) and len(res) else res
-            if isinstance(r0, LinearOperator) and len(r0.shape) == 2 and r0.shape[0] == r0.shape[1] and r0.shape[0] in SIZES:
+            if isinstance(r0, LinearOperator) and len(r0.shape) == 2 and r0.shape[0] == r0.shape[1] and r0.shape[0] in SIZES \
+                    and r0.device == env.pool[kind].device:       # (operands on different devices cannot be combined)
                 A = r0
             elif isinstance(r0, np.ndarray):
                 last = r0
@@ -797,7 +1101,7 @@ def run_tree(prefix, conts, kind, env):
         involved |= env.used
         if st == "ok" and (env.arr.touched or (isinstance(last, np.ndarray) and name in USES_LAST)):
             touched = True
-        statuses.append(st if st == "ok" else f"na:{res}")
+        statuses.append(_stat(st, res))
         if step == 0:
             first = (st, fingerprint(res) if st == "ok" else res)
         if st == "ok":
@@ -805,7 +1109,8 @@ def run_tree(prefix, conts, kind, env):
                 if isinstance(r, LinearOperator):
                     env.hold(f"step{step}:{name}", r)
             r0 = res[0] if isinstance(res, (tuple, list)) and len(res) else res
-            if isinstance(r0, LinearOperator) and len(r0.shape) == 2 and r0.shape[0] == r0.shape[1] and r0.shape[0] in SIZES:
+            if isinstance(r0, LinearOperator) and len(r0.shape) == 2 and r0.shape[0] == r0.shape[1] and r0.shape[0] in SIZES \
+                    and r0.device == env.pool[kind].device:       # (operands on different devices cannot be combined)
                 A = r0
             elif isinstance(r0, np.ndarray):
                 last = r0
@@ -841,7 +1146,7 @@ def run_tree(prefix, conts, kind, env):
                           "first": _short(first), "again": _short(again)}]
             else:
                 fails = env.check(step + 1, inv_c)
-        out["per"][h] = (statuses + [st if st == "ok" else f"na:{res}"], t_c)
+        out["per"][h] = (statuses + [_stat(st, res)], t_c)
         env.produced = env.produced[:base]
         if fails:
             out["failures"].append({"history": list(h), "failures": fails})
@@ -876,8 +1181,11 @@ SHORT_ALPHABET = ["matvec", "matmat", "rmatvec", "T", "H", "add", "sub", "smul",
 # parametrised classes whose dispatch resolution in plum costs 50-300 ms, so they take part in dedicated pairs only
 # the device move takes part in dedicated short histories and in the random long ones
 DEVICE_MOVES = [("to_dev",), ("to_dev", "matvec"), ("matvec", "to_dev"), ("T", "to_dev"), ("to_dev", "flatten")]
-HEAVY = ["exp", "inv"]
+HEAVY = ["exp", "inv", "exp_auto", "lanczos_fn", "arnoldi_fn", "inv_cg_op"]
 HEAVY_FOLLOW = ["matvec", "flatten", "PSD", "cg"]
+# operators that carry library-owned mutable state (LIB_STATE): returned to the caller, then used twice / flattened after use
+STATEFUL = ["lanczos_fn", "arnoldi_fn", "inv_cg_op"]
+STATEFUL_FOLLOW = [("matvec", "matvec"), ("matmat", "flatten"), ("matvec", "T"), ("add", "matvec"), ("matvec", "to_dense")]
 LONG_ALPHABET = [o for o in ALPHABET if o not in ("gmres_tri",) and o not in HEAVY]
 
 # operation kinds (strata of the quick tier's length-3 sample): every operation of the short alphabet belongs to exactly one
@@ -902,12 +1210,31 @@ def _get_env():
     return _ENV
 
 
+_BUCKET = {"ok": 0, "raise": 1, "unpredicted": 2, "skip": 3}
+
+
+def _count(table, name, st):
+    table.setdefault(name, [0, 0, 0, 0])[_BUCKET[st.split(":")[0]]] += 1
+
+
+def _drain(env, out, where):
+    """moves the unpredicted outcomes and the counts of hidden library-owned state changes of `env` into the chunk's result"""
+    for x in env.surprises:
+        if len(out["surprises"]) < 20:
+            out["surprises"].append(dict(x, **where))
+        out["n_surprises"] += 1
+    env.surprises = []
+    for k, v in (env.lib_changes or {}).items():
+        out["lib_changes"][k] = out["lib_changes"].get(k, 0) + v
+    env.lib_changes = {}
+
+
 def _work(chunk):
     """chunk: list of histories (tuples).  Every history runs on every kind of the pool, in one
     persistent environment (a change that survives a history is caught by the full comparison at
     the end of the chunk and then attributed by re-running the chunk history by history)."""
     global _ENV
-    out = {"evals": 0, "runs": 0, "touched": [], "status": {}, "failures": []}
+    out = {"evals": 0, "runs": 0, "touched": [], "status": {}, "failures": [], "surprises": [], "n_surprises": 0, "lib_changes": {}}
     env = _get_env()
     if chunk and chunk[0] == "tree":
         # ("tree", prefix, continuations): the exhaustive length-3 group of one prefix
@@ -922,10 +1249,10 @@ def _work(chunk):
                 t_any[h] = t_any[h] or t
                 for name, st in zip(h, sts):
                     if st != "skipped":
-                        d = out["status"].setdefault(name, [0, 0])
-                        d[0 if st == "ok" else 1] += 1
+                        _count(out["status"], name, st)
             for f in r["failures"]:
                 out["failures"].append({"history": f["history"], "kind": kind, "failures": f["failures"][:3]})
+            _drain(env, out, {"history": list(prefix) + ["*"], "kind": kind})
             if r["failures"] or env.dirty:
                 env = _ENV = Env()
         out["touched"] = [t_any[h] for h in hs]
@@ -942,8 +1269,8 @@ def _work(chunk):
             out["runs"] += 1
             t_any = t_any or r["touched"]
             for name, st in zip(h, r["statuses"]):
-                d = out["status"].setdefault(name, [0, 0])
-                d[0 if st == "ok" else 1] += 1
+                _count(out["status"], name, st)
+            _drain(env, out, {"history": list(h), "kind": kind})
             if r["failures"]:
                 out["failures"].append({"history": list(h), "kind": kind, "failures": r["failures"][:3]})
                 env = _ENV = Env()
@@ -977,6 +1304,7 @@ def all_histories(ctx):
     A = SHORT_ALPHABET
     hs = [(a,) for a in A] + list(itertools.product(A, A))
     hs += [(h,) for h in HEAVY] + [(h, x) for h in HEAVY for x in HEAVY_FOLLOW]
+    hs += [(h,) + f for h in STATEFUL for f in STATEFUL_FOLLOW]
     hs += DEVICE_MOVES
     n_ex2 = len(hs)
     if ctx.thorough:
@@ -1037,16 +1365,20 @@ def part_a(ctx, cov):
     random.Random(ctx.seed).shuffle(chunks)
     chunks = [[h] for h in heavy] + chunks     # slow ones first, one per task
     t0 = time.time()
-    agg = {"evals": 0, "runs": 0, "status": {}, "failures": []}
+    agg = {"evals": 0, "runs": 0, "status": {}, "failures": [], "surprises": [], "n_surprises": 0, "lib_changes": {}}
     touched = {}
     with mp.get_context("fork").Pool(min(16, os.cpu_count() or 1)) as pool:
         for chunk, out in zip(chunks, pool.imap(_work, chunks, chunksize=1)):
             agg["evals"] += out["evals"]
             agg["runs"] += out["runs"]
             for k, v in out["status"].items():
-                d = agg["status"].setdefault(k, [0, 0])
-                d[0] += v[0]
-                d[1] += v[1]
+                d = agg["status"].setdefault(k, [0, 0, 0, 0])
+                for i in range(4):
+                    d[i] += v[i]
+            agg["n_surprises"] += out["n_surprises"]
+            agg["surprises"].extend(out["surprises"][:max(0, 12 - len(agg["surprises"]))])
+            for k, v in out["lib_changes"].items():
+                agg["lib_changes"][k] = agg["lib_changes"].get(k, 0) + v
             agg["failures"].extend(out["failures"])
             hs_of_chunk = [tuple(chunk[1]) + (c,) for c in chunk[2]] if chunk and chunk[0] == "tree" else chunk
             for h, t in zip(hs_of_chunk, out["touched"]):
@@ -1077,7 +1409,20 @@ def part_a(ctx, cov):
         "pool_kinds": KINDS,
         "pool_classes": sorted({type(o).__name__.split("[")[0] for o in Env().pool.values()}),
         "caller_owned_arrays": len(make_arrays()),
-        "applicable": {k: {"ok": v[0], "raised": v[1]} for k, v in sorted(agg["status"].items())},
+        "applicable": {k: {"ok": v[0], "raised_as_predicted": v[1], "unpredicted": v[2], "not_applied_by_generator": v[3],
+                           "success_rate": round(v[0] / max(1, v[0] + v[1] + v[2]), 4)} for k, v in sorted(agg["status"].items())},
+        "applicable_rule": "per operation, over every (history position x pool kind) it was applied to: ok = returned; raised_as_predicted = "
+                           "ended in exactly the exception class `predict` derives from the operand before the call; unpredicted = any "
+                           "other outcome (reported, see unpredicted_outcomes); not_applied_by_generator = size limit of kron / kronsum. "
+                           "Every operation outside EXPECTED_RAISING must reach success_rate >= 0.9, else the check fails",
+        "expected_raising": EXPECTED_RAISING,
+        "unpredicted_outcomes": {"count": agg["n_surprises"], "samples": agg["surprises"][:12]},
+        "library_owned_state_changes": dict(sorted(agg["lib_changes"].items())),
+        "ownership": "caller-owned (compared after every operation, nothing excluded): the arrays of the environment, pool operators and "
+                     "partners, Algorithm objects (fields by value and identity, incl. x0 / start_vector / preconditioner P / Auto "
+                     "namespaces); library-owned (excluded from the snapshot of an operator cola RETURNED, each hidden difference "
+                     "counted in library_owned_state_changes): `info` of IterativeOperatorWInfo / LanczosUnary / ArnoldiUnary and the "
+                     "`start_vector` entry of the fresh `kwargs` dict of LanczosUnary / ArnoldiUnary",
         "samples": [list(h) for h in (hs[40:43] + l3[:2] + longs[:2])],
         "compare": "bytes (tobytes of every caller-owned array after every operation; class/shape/dtype/annotations/device, "
                    "deep attribute snapshot and to_dense bytes of every operator the history touched after every operation, of "
@@ -1103,6 +1448,19 @@ def part_a(ctx, cov):
         seen.add(key2)
         common.violation(ctx, {"history": small, "kind": f["kind"], "failure": ff or first, "original_history": f["history"],
                                "replay": "./check C18 quick --replay <this file>"})
+    # exceptions are observations: an outcome `predict` did not name means the stream no longer exercises what it claims (or the
+    # library changed); so does an operation that mostly raises.  Neither is a mutated input, hence no_input.
+    if not ctx.violations:
+        low = {k: {"ok": v[0], "raised": v[1] + v[2]} for k, v in sorted(agg["status"].items())
+               if k not in EXPECTED_RAISING and v[0] + v[1] + v[2] > 0 and v[0] < 0.9 * (v[0] + v[1] + v[2])}
+        if agg["n_surprises"]:
+            common.violation(ctx, {"broken": "operations ended in an outcome the harness model (`predict`) does not name; the byte "
+                                             "comparison found no modified input", "count": agg["n_surprises"],
+                                   "samples": agg["surprises"][:6]}, no_input=True)
+        elif low:
+            common.violation(ctx, {"broken": "operations succeed on fewer than 90 % of the operators they are applied to: the history "
+                                             "stream no longer exercises them; the byte comparison found no modified input",
+                                   "operations": low}, no_input=True)
     return agg
 
 
@@ -1698,11 +2056,23 @@ def run(ctx):
         "identity-to-mutates-receiver (Identity.to stored the device into the receiver) was repaired in /repo aef9931; `to_dev` is kept as a regression operation",
         "a private helper = a top-level function that is not decorated @export, not in __all__, never imported by name, and referenced "
         "only as the callee of direct calls in its own module (Python has no privacy: a user can still import it from its module)",
-        "write-only attribute (`info`) / constructor-owned containers (`kwargs`, `info`): the mutation of such private state of an "
-        "operator cola built is NOT counted as a change of the operator's value (the snapshots skip them); what is checked "
-        "mechanically is that no library code reads the attribute, resp. that every object ever stored in the field was allocated by cola",
-        "attributes `info` (log of the last iterative run) and kwargs['start_vector'] of LanczosUnary/ArnoldiUnary are not part of an operator's value",
-        "run_householder_arnoldi raises on every input (permute of a 2-D array with 3 axes): use_householder=True paths are exercised up to the exception only",
+        "ownership: caller-owned = the arrays, pool operators, partners and Algorithm objects (x0, start_vector, preconditioner P, Auto "
+        "namespaces; by value and identity) the caller created — compared after every operation with NOTHING excluded; library-owned "
+        "= the `info` dict of IterativeOperatorWInfo / LanczosUnary / ArnoldiUnary and the `start_vector` entry of the `kwargs` dict of "
+        "LanczosUnary / ArnoldiUnary inside an operator cola RETURNED (`**alg.__dict__` binds a fresh dict: checked by identity "
+        "whenever such an operator is returned, else nothing is excluded).  These two fields do change when the returned operator is "
+        "used (`F = cola.exp(S, Lanczos(start_vector=v)); F @ b` pops F.kwargs['start_vector'], so F.flatten() has one leaf fewer "
+        "afterwards, and stores F.info): the mutation of this private state is NOT counted as a change of the operator's value; "
+        "every hidden difference is counted in coverage.library_owned_state_changes.  What the Lean table checks mechanically for "
+        "these rows: no library code reads `info`, every object ever stored in `kwargs` / `info` was allocated by cola",
+        "generator: Lanczos / CG routines get a truthfully annotated operand built from the focus operator (A itself when PSD-annotated, "
+        "not member-distributing and well posed, else PSD(A^H A + M)); solve / GMRES get A or the regularised A^H A + M when A is "
+        "numerically singular or its Krylov space is exhausted inside the iteration budget (the recorded breakdown defects of "
+        "C06/C09/C13/C14 are not this property's subject); the op `PSD` only declares what is true; every remaining exception is "
+        "compared with the class `predict` derives from the operand, anything else fails the check",
+        "run_householder_arnoldi raises ValueError on every input (permute of a 2-D array with 3 axes): use_householder=True paths "
+        "(operations gmres_tri, arnoldi_hh) are exercised up to the exception only; to_dev raises RuntimeError for every operator with an "
+        "array leaf (NumPy backend has no devices); Identity.to(device, dtype) raises TypeError (its signature lacks dtype)",
     ]
     common.write_evidence(ctx, gate, cov, assumptions)
     print(f"C18 {ctx.tier} seed={ctx.seed}: {cov['runs_history_x_kind']} runs, {cov['evaluations']} operations, "
